@@ -367,6 +367,8 @@ func init() {
 		Explanation: "Decides the panic classes that have a crisp rule: decoders return no data with an error, so log-and-continue callers cannot apply a partial message, and return the decoded object whenever they report success, so callers that dereference it cannot hit nil (DOM/all-or-nothing); decoded indexes reach slice operations only inside [0,len] with the exact bound for element access vs slicing, content is dereferenced only for the right kind (DOM/index-kind-guard); optional decoded pointers are dereferenced under their nil test or a predicate implying it, null elements of decoded pointer slices are rejected (DOM/opt-deref); explicit panics and unchecked type assertions are the listed ones (CENSUS/panic); no send on a channel that may have been closed (CHAN: known finding F5 for Cache.inCh); recursive cycles are the listed ones with checked guards (REC/census); the mutex acquisition graph is acyclic (LOCK/order); one Done per throttle slot, so the 'negative running counter' panic is unreachable (PAIR/throttle-slot); a failed or malformed re-fetch closes the reset window, so later valid messages are processed normally (DOM/reset-protocol). Not decided: index safety of lcs, ResourcePattern.Match, byte scans in UnmarshalJSON, encoder buffers; JSON library behaviour; memory exhaustion. Added after seeding round 8: a failed query request releases the event lock, so later messages are still processed (PAIR/query-lock). Added after seeding round 10: a value object naming two of rid, action and data is refused (TABLE/value-object); an answer carrying an error is an error (DOM/error-wins). Added after seeding round 11: every message is decoded as a whole — json.Unmarshal, or a streaming decode followed by a probe for trailing input (TABLE/whole-input); the kind of an answer is decided by the member that is present (TABLE/kind-by-presence).  Added after seeding round 12: an alias of a normalised query resource — base pointer or links entry — is recorded in the resource's alias list on the same path (PAIR/alias-recorded).",
 		Assumptions: baseAssumptions,
 		Rules: []Rule{
+			{Name: "LOCK/guarded-fields", Min: 40, Run: ruleGuardedFields, Doc: "the maps, queues and flags each mutex guards are touched with it held: no unsynchronised map access (fatal) and no check of stale state"},
+			{Name: "LOCK/balance", Min: 20, Run: ruleLockBalance, Doc: "every function leaves each mutex as it found it on every path to a return: no path blocks the resource, connection or service for ever, none unlocks an unlocked mutex (fatal)"},
 			{Name: "PAIR/alias-recorded", Min: 1, Run: ruleAliasRecorded, Doc: "an alias installed for a normalised query is recorded in the resource's alias list: no alias outlives its resource (a subscriber attached to a dead resource writes to a nil map on a cache worker)"},
 			{Name: "TABLE/kind-by-presence", Min: 3, Run: ruleKindByPresence, Doc: "an empty model or collection is a valid resource, not a missing one"},
 			{Name: "TABLE/whole-input", Min: 10, Run: ruleWholeInput, Doc: "a message is decoded as a whole: a payload with anything behind its first JSON value is malformed and discarded"},
